@@ -100,6 +100,15 @@ static std::array<uint16_t, 6> ts6(const tm& t) {
             (uint16_t)t.tm_hour,          (uint16_t)t.tm_min,       (uint16_t)t.tm_sec};
 }
 
+// the fields a query hands back, as they are (a word of 32768 or more must not come back negative)
+static std::array<int64_t, 6> ts6_wide(const tm& t) {
+    return {(int64_t)t.tm_year + 1900, (int64_t)t.tm_mon + 1, (int64_t)t.tm_mday, (int64_t)t.tm_hour, (int64_t)t.tm_min, (int64_t)t.tm_sec};
+}
+static std::string ts_str(const std::array<int64_t, 6>& a) {
+    char b[96];
+    snprintf(b, sizeof b, "%lld-%lld-%lld %lld:%lld:%lld", (long long)a[0], (long long)a[1], (long long)a[2], (long long)a[3], (long long)a[4], (long long)a[5]);
+    return b;
+}
 static std::string ts_str(const std::array<uint16_t, 6>& a) {
     char b[64];
     snprintf(b, sizeof b, "%u-%u-%u %u:%u:%u", a[0], a[1], a[2], a[3], a[4], a[5]);
@@ -826,7 +835,7 @@ struct Exec {
                 bool all_zero = t.tm_year == 0 && t.tm_mon == 0 && t.tm_mday == 0 && t.tm_hour == 0 && t.tm_min == 0 && t.tm_sec == 0;
                 if (returned && trunc >= 0 && ec == ErrorCode::NoError && !(no_ec && all_zero)) {
                     gdspeer::Decoded& d = truth(ref);
-                    std::array<uint16_t, 6> got = ts6(t), want;
+                    std::array<int64_t, 6> got = ts6_wide(t), want;
                     for (int i = 0; i < 6; i++) want[i] = d.lib_ts[i];
                     if (got != want)
                         viol(trunc == 1 ? "C18" : "C17", "timestamp_wrong",
@@ -2017,7 +2026,7 @@ struct Exec {
             if (ec != ErrorCode::NoError) {
                 viol("C17", "stamp_error", std::string("gds_timestamp returned ") + bridge::error_name(ec) + " while rewriting a complete file", ctx);
             } else {
-                std::array<uint16_t, 6> got = ts6(old), want;
+                std::array<int64_t, 6> got = ts6_wide(old), want;
                 for (int i = 0; i < 6; i++) want[i] = d.lib_ts[i];
                 if (got != want)
                     viol("C17", "stamp_returns_wrong_old", "gds_timestamp returned " + ts_str(got) + " as the previous timestamp, the file stored " + ts_str(want), ctx);
